@@ -157,7 +157,7 @@ pub fn c12(log: &mut Log, seed: u64, tier: &str) {
         let rows = (trie * 4).next_power_of_two();
         let (_, ne_nodes, ne_evictions) = tapped_build(log, &zero, true, Some((rows, 8)), false);
         log.ev(json!({"ev": "Corpus", "name": name, "keys": keys.len(), "trie": trie, "minimal": minimal, "nodes": nodes, "evictions": jn(evictions as usize),
-                      "noevict_nodes": ne_nodes, "noevict_evictions": jn(ne_evictions as usize), "threshold": 70}));
+                      "noevict_nodes": ne_nodes, "noevict_evictions": jn(ne_evictions as usize), "threshold": 50}));
     }
 }
 
@@ -385,6 +385,46 @@ pub fn c15(log: &mut Log, seed: u64, tier: &str) {
                     log.ev(json!({"ev": "Built", "input": name, "path": path, "thread": 0, "pid": 0, "rep": 0, "digest": fnv(&bytes)}));
                 }
             }
+        }
+        // what else lives (or died) in the process must not matter: six builders fed in lock step
+        // and finished one after the other, then a build after six builders were abandoned
+        // unfinished (two of them after a rejected call)
+        if !big && idx % 5 == 2 {
+            if *set {
+                let mut bs: Vec<fst::SetBuilder<Vec<u8>>> = (0..6).map(|_| fst::SetBuilder::memory()).collect();
+                for (k, _) in items.iter() {
+                    for b in bs.iter_mut() {
+                        b.insert(k).unwrap();
+                    }
+                }
+                for (j, b) in bs.into_iter().enumerate() {
+                    let bytes = b.into_inner().unwrap();
+                    log.ev(json!({"ev": "Built", "input": name, "path": format!("lockstep#{}", j), "thread": 0, "pid": 0, "rep": 0, "digest": fnv(&bytes)}));
+                }
+            } else {
+                let mut bs: Vec<fst::MapBuilder<Vec<u8>>> = (0..6).map(|_| fst::MapBuilder::memory()).collect();
+                for (k, v) in items.iter() {
+                    for b in bs.iter_mut() {
+                        b.insert(k, *v).unwrap();
+                    }
+                }
+                for (j, b) in bs.into_iter().enumerate() {
+                    let bytes = b.into_inner().unwrap();
+                    log.ev(json!({"ev": "Built", "input": name, "path": format!("lockstep#{}", j), "thread": 0, "pid": 0, "rep": 0, "digest": fnv(&bytes)}));
+                }
+            }
+            for j in 0..6 {
+                let mut b = Builder::memory();
+                for (k, v) in items.iter().take(1 + j) {
+                    b.insert(k, *v).unwrap();
+                }
+                if j % 3 == 0 {
+                    let _ = b.insert(b"", 1); // rejected (or the first key of an empty build): the builder is dropped anyway
+                }
+                drop(b);
+            }
+            let bytes = build_via(paths[0], items, *set);
+            log.ev(json!({"ev": "Built", "input": name, "path": "after_abandoned_builders", "thread": 0, "pid": 0, "rep": 0, "digest": fnv(&bytes)}));
         }
         // parallel threads
         if idx % 4 == 0 || big {
